@@ -68,6 +68,13 @@ func plRun(t *testing.T, name string, base string, seed int64) {
 		ctl.SendAllStatus(&d, &ok)
 		time.Sleep(time.Duration(rng.Intn(30)) * time.Millisecond)
 	}
+	// raw-data-block requests back to back (the writer goroutine of one block is still at work when the next request is
+	// set up): several pairs, so that the overlap does not depend on one lucky timing
+	for k := 0; k < 6; k++ {
+		issue(rqCase{Kind: "rawblock", Arg: "valid"})
+		issue(rqCase{Kind: "rawblock", Arg: "valid"})
+		time.Sleep(time.Duration(5*k) * time.Millisecond)
+	}
 	issue(rqCase{Kind: "writecontrol", Arg: "stop"})
 	issue(rqCase{Kind: "pulselengths", Arg: "nsamp-only"})
 	issue(rqCase{Kind: "trigger", Arg: "all"})
